@@ -142,6 +142,10 @@ func memioSequence(r *rand.Rand, w *bufio.Writer, idc *int, lens []int, nops int
 					a = 65535
 				}
 			}
+			if o.kind == "mapmem" && r.Intn(60) == 0 { // a block longer than the address space: the last write wins
+				n = 65536 + 1 + r.Intn(300)
+				a = r.Intn(65536)
+			}
 			data := make([]uint8, n)
 			di := make([]int, n)
 			for i := range data {
